@@ -125,12 +125,17 @@ class BorrowedResources(BaseResources[T]):
         # do not postpone if we can resume immediately
         if not self._resources._available >= self._debits:
             await (self._resources._available >= self._debits)
+        credited = False
         try:
             await self._resources.__remove_resources__(self._debits)
+            credited = True
             await self.__insert_resources__(self._debits)
         except BaseException:
             # We were interrupted while postponed after taking the resources.
             # The block is not entered, so __aexit__ will never return them.
+            if credited:
+                # ... nor take what we already offered for borrowing from us
+                self._available.__change__(self._available.value - self._debits)
             self.__return_resources__()
             raise
         return self
